@@ -9,7 +9,8 @@
    (the compile-time CHECK_N) and 8 * N <= usize::MAX.  Colours are their raw values (raw_ok: < 2^bits).
    fb_pixel returns Panic | Pix (option colour): the theorems show it is never Panic. *)
 From EG Require Import Base.Prelude Model.Rawdata Proofs.Rawdata Model.Framebuffer Proofs.Framebuffer.
-From EG Require Model.Geometry Model.Target Proofs.Target Proofs.Fbtarget Gen.FbShape.
+From EG Require Model.Geometry Proofs.Geometry Model.Target Proofs.Target Proofs.Fbtarget Gen.FbShape.
+From EG Require Model.Imageraw Proofs.Imageraw Proofs.Imagebridge.
 
 (* a new framebuffer reads the all-zero colour inside, None outside *)
 Theorem C10_fb_init : forall c n q,
@@ -153,6 +154,27 @@ Theorem C10_fb_as_image_draw : forall c data,
     forall x y, 0 <= x < fb_w c -> 0 <= y < fb_h c ->
       fb_pixel c data (x, y) = Pix (nth_error cols (Z.to_nat (y * fb_w c + x))).
 Proof. exact fb_as_image_draw. Qed.
+
+(* ---- bridge to the ImageRaw model of property C09 (Model/Imageraw.v) --------------------------------------------
+   Framebuffer.v's ImageRaw::pixel is Imageraw.v's raw_pixel on the same data ... *)
+Theorem C10_image_pixel_eq : forall im p,
+  bytes_ok (img_data im) -> len_ok (img_data im) -> 0 <= data_width im ->
+  image_pixel im (Geometry.px p, Geometry.py p) = Imageraw.raw_pixel (Imagebridge.to_ir im) p.
+Proof. exact Imagebridge.image_pixel_eq. Qed.
+
+(* ... hence C09's image_draw_spec applies to as_image(): after Image::new(&fb.as_image(), o).draw(target) on a target
+   with bounding box bb (Imageraw.render: the fill_contiguous call with its area and colour stream, painted with the
+   DrawTarget contract) the target holds at q the framebuffer's colour at q - o inside bb /\ (o, WIDTH x HEIGHT) and
+   nothing elsewhere: drawing as_image() reproduces the content.  Sizes and offset within +-2^29 (range of C09). *)
+Theorem C10_fb_as_image_render : forall c data o,
+  fb_ok c data -> fb_w c <= Geometry.bound -> fb_h c <= Geometry.bound -> Geometry.point_ok o ->
+  exists im,
+    fb_as_image c data = Some im /\ Imageraw.img_ok (Imagebridge.to_ir im) /\
+    forall bb q,
+      Imageraw.render bb (Imageraw.image_draw (Imageraw.Img (Imageraw.Raw (Imagebridge.to_ir im)) o)) q =
+      if Geometry.contains bb q && Geometry.contains (Geometry.R o (Geometry.S (fb_w c) (fb_h c))) q
+      then Fbtarget.fb_abs c data (Geometry.psub q o) else None.
+Proof. exact Imagebridge.fb_as_image_render. Qed.
 
 (* non-vacuity: a 9x2 1-bpp framebuffer (rows padded to 2 bytes) in both data orders, oversized by one byte *)
 Example C10_witness :
